@@ -88,6 +88,82 @@ impl InstructionOps {
     }
 }
 
+/// Numbers of operands the instruction can be written with
+fn operand_counts(op: &Operation) -> &'static [usize] {
+    match op {
+        Operation::Add
+        | Operation::Adc
+        | Operation::Sub
+        | Operation::Sbc
+        | Operation::And
+        | Operation::Or
+        | Operation::Eor
+        | Operation::Cpse
+        | Operation::Cp
+        | Operation::Cpc
+        | Operation::Mov
+        | Operation::Mul
+        | Operation::Adiw
+        | Operation::Sbiw
+        | Operation::Subi
+        | Operation::Sbci
+        | Operation::Andi
+        | Operation::Ori
+        | Operation::Sbr
+        | Operation::Cbr
+        | Operation::Cpi
+        | Operation::Ldi
+        | Operation::Muls
+        | Operation::Mulsu
+        | Operation::Fmul
+        | Operation::Fmuls
+        | Operation::Fmulsu
+        | Operation::Movw
+        | Operation::Lds
+        | Operation::Sts
+        | Operation::Ld
+        | Operation::St
+        | Operation::Ldd
+        | Operation::Std
+        | Operation::In
+        | Operation::Out
+        | Operation::Sbrc
+        | Operation::Sbrs
+        | Operation::Bst
+        | Operation::Bld
+        | Operation::Sbi
+        | Operation::Cbi
+        | Operation::Sbis
+        | Operation::Sbic
+        | Operation::Br(BranchT::Bs)
+        | Operation::Br(BranchT::Bc) => &[2],
+        Operation::Com
+        | Operation::Neg
+        | Operation::Inc
+        | Operation::Dec
+        | Operation::Push
+        | Operation::Pop
+        | Operation::Lsr
+        | Operation::Ror
+        | Operation::Asr
+        | Operation::Swap
+        | Operation::Tst
+        | Operation::Clr
+        | Operation::Lsl
+        | Operation::Rol
+        | Operation::Ser
+        | Operation::Rjmp
+        | Operation::Rcall
+        | Operation::Jmp
+        | Operation::Call
+        | Operation::Br(_)
+        | Operation::Bset
+        | Operation::Bclr => &[1],
+        Operation::Lpm | Operation::Elpm => &[0, 2],
+        _ => &[0],
+    }
+}
+
 /// Process instruction - parse arguments and construct
 /// correct byte representation
 pub fn process(
@@ -101,6 +177,10 @@ pub fn process(
     let mut opcode = op.info(constants).op_code;
     let mut opcode_2part = 0u16;
     let mut long_opcode = false;
+
+    if !operand_counts(op).contains(&op_args.len()) {
+        bail!("wrong number of operands for {:?}: {}", op, op_args.len());
+    }
 
     match op {
         Operation::Add
